@@ -1,28 +1,21 @@
-(* C02 (round 7) — list-level specification of ValueStack::copy_index / move_index
-   (skrifa/src/outline/glyf/hint/value_stack.rs) and of every other ValueStack operation, and the proof
-   that the model's functions (Model.v vs_*, the very definitions the correspondence shards run against
-   the real code) refine it for every stack and every argument.
+(* C02 (round 7, updated for /repo 5407d30) — list-level specification of every ValueStack operation
+   (skrifa/src/outline/glyf/hint/value_stack.rs), in particular copy_index / move_index, and the proof that the
+   model's functions (Model.v vs_*, the very definitions the correspondence shards run against the real code)
+   refine it for every stack and every argument.
 
-   A stack is a list, BOTTOM FIRST (as [stk] in Proofs.v); the specifications below read it TOP FIRST
-   through [rev].  Index conventions of the Rust code (both operations take NO argument: the index is
-   the i32 on top of the stack, converted with `as usize`, and neither looks at `is_pedantic`):
-
-   copy_index  (CINDEX)   top-first stack  v :: r,  i = v as usize
-       len = 0                          -> Err ValueStackUnderflow, stack unchanged
-       i > |r|  (i >= len; every v < 0) -> Err ValueStackUnderflow, stack unchanged (index NOT popped)
-       otherwise                        -> Ok, stack = nth i (v :: r) :: r
-                                           (the index cell is overwritten by the element i positions
-                                            below it; i = 0 names the index cell itself: no change;
-                                            i = |r| = len-1 names the bottom element)
-   move_index  (MINDEX)   top-first stack  v :: r,  i = v as usize
-       len = 0                          -> Err ValueStackUnderflow, unchanged
-       i > |r|  (i >= len; every v < 0) -> Err ValueStackUnderflow, unchanged
-       |r| = 0  (len = 1, i = 0)        -> Err ValueStackUnderflow, unchanged
-       i = 0,  r = y :: r'              -> Ok, stack = v :: r'   (the index is popped and the element
-                                           below it is OVERWRITTEN by the index value, i.e. by 0)
-       1 <= i <= |r|                    -> Ok, stack = r[i-1] :: r[0..i-1) ++ r[i..)
-                                           (index popped; the i-th element below it is removed and
-                                            pushed: a rotation of the top i elements of r) *)
+   A stack is a list, BOTTOM FIRST (as [stk] in Proofs.v); the specifications read it TOP FIRST through [rev].
+   Conventions of the Rust code since 5407d30 (FreeType Ins_CINDEX / Ins_MINDEX).  Both operations take no
+   argument: they first POP the index v (pedantic + empty stack -> Err ValueStackUnderflow; non-pedantic + empty
+   stack -> v = 0).  Let r be the stack after the pop, top first, depth |r|.
+     v outside 1..=|r| (v <= 0 or v > |r|):
+         pedantic      -> Err InvalidStackValue(v); the index stays popped
+         non-pedantic  -> copy_index: push 0 (can overflow only when the stack was empty and capacity = 0);
+                          move_index: Ok, nothing else changes
+     1 <= v <= |r| (v = 1 is the cell just below the index, v = |r| the bottom cell), both modes:
+         copy_index -> Ok, stack = r[v-1] :: r
+         move_index -> Ok, stack = r[v-1] :: r[0..v-1) ++ r[v..)   (a rotation of the top v cells of r)
+   Before 5407d30 both operations returned ValueStackUnderflow in both modes for a bad index without popping it,
+   index 0 named the index cell itself, and move_index(0) overwrote the cell below the index with 0 (see notes/C02.md). *)
 From Coq Require Import ZArith Lia List Bool.
 From Coq Require Import ZifyBool.
 From FV Require Import Lib.RustInt C02.Model C02.Proofs.
@@ -59,24 +52,19 @@ Definition spec_pop (ped : bool) : L Z := fun l =>
   end.
 Definition spec_clear : L unit := fun _ => ([], Ok tt).
 
-Definition spec_copy_index : L unit := fun l =>
-  match rev l with
-  | [] => (l, Err EUnderflow)
-  | v :: r =>
-      let i := as_usize v in
-      if zlen r <? i then (l, Err EUnderflow)
-      else (rev (nth (Z.to_nat i) (v :: r) 0 :: r), Ok tt)
-  end.
+Definition spec_copy_index (cap : Z) (ped : bool) : L unit :=
+  lbind (spec_pop ped) (fun v l =>
+    if (v <=? 0) || (zlen l <? v) then
+      if ped then (l, Err (EInvalidStackValue v)) else spec_push cap 0 l
+    else spec_push cap (nth (Z.to_nat (v - 1)) (rev l) 0) l).
 
-Definition spec_move_index : L unit := fun l =>
-  match rev l with
-  | [] => (l, Err EUnderflow)
-  | v :: r =>
-      let i := as_usize v in
-      if (zlen r <? i) || (zlen r =? 0) then (l, Err EUnderflow)
-      else if i =? 0 then (rev (v :: tl r), Ok tt)
-      else (rev (nth (Z.to_nat (i - 1)) r 0 :: firstn (Z.to_nat (i - 1)) r ++ skipn (Z.to_nat i) r), Ok tt)
-  end.
+Definition spec_move_index (ped : bool) : L unit :=
+  lbind (spec_pop ped) (fun v l =>
+    if (v <=? 0) || (zlen l <? v) then
+      if ped then (l, Err (EInvalidStackValue v)) else (l, Ok tt)
+    else
+      let r := rev l in
+      (rev (nth (Z.to_nat (v - 1)) r 0 :: firstn (Z.to_nat (v - 1)) r ++ skipn (Z.to_nat v) r), Ok tt)).
 
 (* the composite operations: the same programs as in value_stack.rs, over the list machine *)
 Definition spec_pop_usize (ped : bool) : L Z := lbind (spec_pop ped) (fun v => lret (wrap_u 64 v)).
@@ -153,201 +141,10 @@ Proof. intros ->. rewrite firstn_app, Nat.sub_diag, firstn_all. cbn. apply app_n
 Lemma skipn_app_len {A} (a b : list A) n : n = length a -> skipn n (a ++ b) = b.
 Proof. intros ->. rewrite skipn_app, Nat.sub_diag, skipn_all. reflexivity. Qed.
 
-Lemma as_usize_nonneg v : 0 <= as_usize v.
-Proof. apply wrap_u64_nonneg. Qed.
-
-(* ------------------------------------------------------------------------------------------ *)
-(* the model on stores of a known shape                                                        *)
-(* ------------------------------------------------------------------------------------------ *)
-(* index 0: the index cell is copied onto itself *)
-Lemma copy_index_shape0 s a v t :
-  vals s = a ++ v :: t -> vlen s = zlen a + 1 -> as_usize v = 0 ->
-  vs_copy_index s = Some (s, Ok tt).
-Proof.
-  intros Hv Hn Hi. unfold vs_copy_index, checked_sub. pose proof (zlen_nonneg a).
-  destruct (vlen s <? 1) eqn:E1; [lia|].
-  rewrite Hv. rewrite (zget_app_mid a t v) by lia. cbv zeta.
-  unfold as_usize in Hi. rewrite Hi.
-  destruct (vlen s - 1 <? 0) eqn:E2; [lia|].
-  rewrite (zget_app_mid a t v) by lia. rewrite (zset_app_mid a t v v) by lia.
-  destruct s as [vs n]. cbn in *. subst vs. reflexivity.
-Qed.
-
-(* index i = |m| + 1 >= 1: x is the element i positions below the index cell *)
-Lemma copy_index_shape1 s p x m v t :
-  vals s = p ++ x :: m ++ v :: t -> vlen s = zlen p + zlen m + 2 -> as_usize v = zlen m + 1 ->
-  vs_copy_index s = Some (mkVS (p ++ x :: m ++ x :: t) (vlen s), Ok tt).
-Proof.
-  intros Hv Hn Hi. unfold vs_copy_index, checked_sub.
-  pose proof (zlen_nonneg p). pose proof (zlen_nonneg m).
-  destruct (vlen s <? 1) eqn:E1; [lia|].
-  rewrite Hv.
-  replace (p ++ x :: m ++ v :: t) with ((p ++ x :: m) ++ v :: t) by aeq.
-  rewrite (zget_app_mid (p ++ x :: m) t v) by zl. cbv zeta.
-  unfold as_usize in Hi. rewrite Hi.
-  destruct (vlen s - 1 <? zlen m + 1) eqn:E2; [lia|].
-  replace ((p ++ x :: m) ++ v :: t) with (p ++ x :: (m ++ v :: t)) at 1 by aeq.
-  rewrite (zget_app_mid p (m ++ v :: t) x) by lia.
-  rewrite (zset_app_mid (p ++ x :: m) t v x) by zl.
-  rewrite <- app_assoc. reflexivity.
-Qed.
-
-Lemma copy_within_shape p x m v t :
-  copy_within (p ++ x :: m ++ v :: t) (zlen p + 1) (zlen p + zlen m + 2) (zlen p) =
-  Some (p ++ m ++ v :: v :: t).
-Proof.
-  unfold copy_within. pose proof (zlen_nonneg p). pose proof (zlen_nonneg m). pose proof (zlen_nonneg t).
-  assert (Hl : zlen (p ++ x :: m ++ v :: t) = zlen p + zlen m + 2 + zlen t) by zl.
-  rewrite Hl.
-  destruct ((zlen p + zlen m + 2 <? zlen p + 1) || (zlen p + zlen m + 2 + zlen t <? zlen p + zlen m + 2)
-            || (zlen p + zlen m + 2 + zlen t <? zlen p + (zlen p + zlen m + 2 - (zlen p + 1)))
-            || (zlen p + 1 <? 0) || (zlen p <? 0)) eqn:E; [lia|].
-  f_equal.
-  rewrite (firstn_app_len p) by (unfold zlen; lia). f_equal.
-  replace (p ++ x :: m ++ v :: t) with ((p ++ [x]) ++ m ++ v :: t) at 1 by aeq.
-  rewrite (skipn_app_len (p ++ [x])) by zl.
-  replace (m ++ v :: t) with ((m ++ [v]) ++ t) by aeq.
-  rewrite (firstn_app_len (m ++ [v])) by zl.
-  rewrite <- app_assoc. cbn [app]. f_equal. f_equal.
-  replace (p ++ x :: (m ++ [v]) ++ t) with ((p ++ x :: m) ++ v :: t)
-    by aeq.
-  rewrite (skipn_app_len (p ++ x :: m)) by zl. reflexivity.
-Qed.
-
-(* index 0 on a stack of at least two cells: the index is popped and the new top is overwritten by it *)
-Lemma move_index_shape0 s a y v t :
-  vals s = a ++ y :: v :: t -> vlen s = zlen a + 2 -> as_usize v = 0 -> zlen (vals s) <= isize_max ->
-  vs_move_index s = Some (mkVS (a ++ v :: v :: t) (vlen s - 1), Ok tt).
-Proof.
-  intros Hv Hn Hi Hc. unfold vs_move_index, checked_sub. pose proof (zlen_nonneg a). pose proof (zlen_nonneg t).
-  destruct (vlen s <? 1) eqn:E1; [lia|].
-  rewrite Hv in *.
-  replace (a ++ y :: v :: t) with ((a ++ [y]) ++ v :: t) in * by aeq.
-  rewrite (zget_app_mid (a ++ [y]) t v) by zl. cbv zeta.
-  unfold as_usize in Hi. rewrite Hi.
-  destruct (vlen s - 1 <? 0) eqn:E2; [lia|].
-  destruct (vlen s - 1 <? 1) eqn:E3; [lia|].
-  rewrite (zget_app_mid (a ++ [y]) t v) by zl.
-  assert (Hl : zlen ((a ++ [y]) ++ v :: t) = zlen a + 2 + zlen t) by zl.
-  unfold add_usize, usize_max, isize_max in *.
-  destruct (18446744073709551615 <? vlen s - 1 - 0 + 1) eqn:E4; [lia|].
-  unfold copy_within. rewrite Hl.
-  destruct ((vlen s <? vlen s - 1 - 0 + 1) || (zlen a + 2 + zlen t <? vlen s)
-            || (zlen a + 2 + zlen t <? vlen s - 1 - 0 + (vlen s - (vlen s - 1 - 0 + 1)))
-            || (vlen s - 1 - 0 + 1 <? 0) || (vlen s - 1 - 0 <? 0)) eqn:E5; [lia|].
-  replace (Z.to_nat (vlen s - (vlen s - 1 - 0 + 1))) with 0%nat by lia.
-  replace (vlen s - 1 - 0 + (vlen s - (vlen s - 1 - 0 + 1))) with (vlen s - 1 - 0) by lia.
-  cbn [firstn app]. rewrite firstn_skipn.
-  replace ((a ++ [y]) ++ v :: t) with (a ++ y :: v :: t) by aeq.
-  rewrite (zset_app_mid a (v :: t) y v) by lia.
-  unfold sub_usize. rewrite E1. reflexivity.
-Qed.
-
-(* index i = |m| + 1 >= 1 *)
-Lemma move_index_shape1 s p x m v t :
-  vals s = p ++ x :: m ++ v :: t -> vlen s = zlen p + zlen m + 2 -> as_usize v = zlen m + 1 ->
-  zlen (vals s) <= isize_max ->
-  vs_move_index s = Some (mkVS (p ++ m ++ x :: v :: t) (vlen s - 1), Ok tt).
-Proof.
-  intros Hv Hn Hi Hc. unfold vs_move_index, checked_sub.
-  pose proof (zlen_nonneg p). pose proof (zlen_nonneg m). pose proof (zlen_nonneg t).
-  destruct (vlen s <? 1) eqn:E1; [lia|].
-  assert (Hl : zlen (vals s) = zlen p + zlen m + 2 + zlen t) by (rewrite Hv; zl).
-  rewrite Hv.
-  replace (p ++ x :: m ++ v :: t) with ((p ++ x :: m) ++ v :: t) at 1 by aeq.
-  rewrite (zget_app_mid (p ++ x :: m) t v) by zl. cbv zeta.
-  unfold as_usize in Hi. rewrite Hi.
-  destruct (vlen s - 1 <? zlen m + 1) eqn:E2; [lia|].
-  destruct (vlen s - 1 <? 1) eqn:E3; [lia|].
-  rewrite (zget_app_mid p (m ++ v :: t) x) by lia.
-  unfold add_usize, usize_max, isize_max in *.
-  destruct (18446744073709551615 <? vlen s - 1 - (zlen m + 1) + 1) eqn:E4; [lia|].
-  replace (vlen s - 1 - (zlen m + 1) + 1) with (zlen p + 1) by lia.
-  replace (vlen s - 1 - (zlen m + 1)) with (zlen p) by lia.
-  replace (vlen s) with (zlen p + zlen m + 2) at 1 by lia.
-  rewrite copy_within_shape.
-  replace (p ++ m ++ v :: v :: t) with ((p ++ m) ++ v :: v :: t) by aeq.
-  rewrite (zset_app_mid (p ++ m) (v :: t) v x) by zl.
-  unfold sub_usize. rewrite E1. rewrite <- app_assoc. reflexivity.
-Qed.
-
-(* ------------------------------------------------------------------------------------------ *)
-(* the specification on lists of a known shape                                                 *)
-(* ------------------------------------------------------------------------------------------ *)
-Lemma rev_shape1 (p m : list Z) x v : rev (p ++ x :: m ++ [v]) = v :: rev m ++ x :: rev p.
-Proof.
-  rewrite rev_app_distr. cbn [rev]. rewrite rev_app_distr. cbn [rev app].
-  rewrite <- !app_assoc. reflexivity.
-Qed.
 
 Lemma zlen_rev {A} (l : list A) : zlen (rev l) = zlen l.
 Proof. unfold zlen. rewrite rev_length. reflexivity. Qed.
 
-Lemma spec_copy_shape0 a v : as_usize v = 0 -> spec_copy_index (a ++ [v]) = (a ++ [v], Ok tt).
-Proof.
-  intros Hi. unfold spec_copy_index. rewrite rev_app_distr. cbn [rev app]. cbv zeta. rewrite Hi.
-  pose proof (zlen_nonneg (rev a)). destruct (zlen (rev a) <? 0) eqn:E; [lia|].
-  cbn [Z.to_nat nth rev]. rewrite rev_involutive. reflexivity.
-Qed.
-
-Lemma spec_copy_shape1 p x m v : as_usize v = zlen m + 1 ->
-  spec_copy_index (p ++ x :: m ++ [v]) = (p ++ x :: m ++ [x], Ok tt).
-Proof.
-  intros Hi. unfold spec_copy_index. rewrite rev_shape1. cbv zeta. rewrite Hi.
-  pose proof (zlen_nonneg m). pose proof (zlen_nonneg p).
-  destruct (zlen (rev m ++ x :: rev p) <? zlen m + 1) eqn:E.
-  { rewrite zlen_app in E. rewrite zlen_rev in E. unfold zlen in E. cbn [length] in E. lia. }
-  replace (Z.to_nat (zlen m + 1)) with (S (length (rev m))) by (rewrite rev_length; unfold zlen; lia).
-  cbn [nth]. rewrite app_nth2 by lia. rewrite Nat.sub_diag. cbn [nth].
-  f_equal. rewrite <- rev_shape1, rev_involutive. reflexivity.
-Qed.
-
-Lemma spec_move_shape0 a y v : as_usize v = 0 -> spec_move_index (a ++ [y; v]) = (a ++ [v], Ok tt).
-Proof.
-  intros Hi. unfold spec_move_index. rewrite rev_app_distr. cbn [rev app]. cbv zeta. rewrite Hi.
-  pose proof (zlen_nonneg (rev a)).
-  destruct ((zlen (y :: rev a) <? 0) || (zlen (y :: rev a) =? 0)) eqn:E.
-  { unfold zlen in *. cbn [length] in E. lia. }
-  cbn [Z.eqb tl rev]. rewrite rev_involutive. reflexivity.
-Qed.
-
-Lemma spec_move_shape1 p x m v : as_usize v = zlen m + 1 ->
-  spec_move_index (p ++ x :: m ++ [v]) = (p ++ m ++ [x], Ok tt).
-Proof.
-  intros Hi. unfold spec_move_index. rewrite rev_shape1. cbv zeta. rewrite Hi.
-  pose proof (zlen_nonneg m). pose proof (zlen_nonneg p).
-  assert (Hz : zlen (rev m ++ x :: rev p) = zlen m + 1 + zlen p).
-  { rewrite zlen_app, zlen_rev. unfold zlen. cbn [length]. rewrite rev_length. lia. }
-  rewrite Hz.
-  destruct ((zlen m + 1 + zlen p <? zlen m + 1) || (zlen m + 1 + zlen p =? 0)) eqn:E; [lia|].
-  destruct (zlen m + 1 =? 0) eqn:E0; [lia|].
-  replace (Z.to_nat (zlen m + 1 - 1)) with (length (rev m)) by (rewrite rev_length; unfold zlen; lia).
-  replace (Z.to_nat (zlen m + 1)) with (length (rev m ++ [x])) by (rewrite app_length, rev_length; unfold zlen; cbn [length]; lia).
-  rewrite app_nth2 by lia. rewrite Nat.sub_diag. cbn [nth].
-  rewrite (firstn_app_len (rev m)) by reflexivity.
-  replace (rev m ++ x :: rev p) with ((rev m ++ [x]) ++ rev p) by aeq.
-  rewrite (skipn_app_len (rev m ++ [x])) by reflexivity.
-  f_equal. cbn [rev]. rewrite rev_app_distr, !rev_involutive, <- app_assoc. reflexivity.
-Qed.
-
-(* ------------------------------------------------------------------------------------------ *)
-(* copy_index / move_index refine their specifications                                         *)
-(* ------------------------------------------------------------------------------------------ *)
-(* a non-empty [stk s] splits the store as  a ++ v :: t  with v the top *)
-Lemma store_split_top cap s : vinv cap s -> 0 < vlen s ->
-  exists a v t, vals s = a ++ v :: t /\ stk s = a ++ [v] /\ vlen s = zlen a + 1.
-Proof.
-  intros H Hp. pose proof (stk_len cap s H) as Hsl. destruct H as [Hl Hn].
-  destruct (exists_last (l := stk s)) as (a & v & Ha).
-  { intros E. rewrite E in Hsl. unfold zlen in Hsl. cbn in Hsl. lia. }
-  exists a, v, (skipn (Z.to_nat (vlen s)) (vals s)).
-  split; [|split].
-  - rewrite <- (firstn_skipn (Z.to_nat (vlen s)) (vals s)) at 1. fold (stk s). rewrite Ha, <- app_assoc. reflexivity.
-  - exact Ha.
-  - rewrite <- Hsl, Ha. zl.
-Qed.
-
-(* a list of length >= k splits as p ++ x :: m with |m| = k - 1, for 1 <= k <= |a| *)
 Lemma list_split_from_end (a : list Z) k : 1 <= k <= zlen a ->
   exists p x m, a = p ++ x :: m /\ zlen m = k - 1 /\ zlen p = zlen a - k.
 Proof.
@@ -363,95 +160,6 @@ Qed.
 
 Lemma stk_of_app s a t : vals s = a ++ t -> vlen s = zlen a -> stk s = a.
 Proof. intros Hv Hn. unfold stk. rewrite Hv, Hn. apply firstn_app_len. apply to_nat_zlen. Qed.
-
-Lemma copy_index_refines cap : cap <= isize_max -> refines cap vs_copy_index spec_copy_index.
-Proof.
-  intros Hcap s H. pose proof H as [Hl Hn].
-  destruct (Z.eq_dec (vlen s) 0) as [E0|E0].
-  { (* empty stack *)
-    assert (Hs : stk s = []) by (unfold stk; rewrite E0; reflexivity).
-    rewrite Hs. exists s. unfold vs_copy_index, checked_sub. rewrite E0. cbn. auto. }
-  destruct (store_split_top cap s H ltac:(lia)) as (a & v & t & Hv & Hs & Hn1).
-  pose proof (as_usize_nonneg v) as Hi0. pose proof (zlen_nonneg a) as Ha0.
-  destruct (Z_lt_dec (zlen a) (as_usize v)) as [Ebig|Eok].
-  { (* index >= len: underflow, nothing popped *)
-    exists s. rewrite Hs. unfold spec_copy_index. rewrite rev_app_distr. cbn [rev app]. cbv zeta.
-    rewrite zlen_rev. destruct (zlen a <? as_usize v) eqn:E; [|lia]. cbn [fst snd].
-    split; [|split; [reflexivity|exact H]].
-    unfold vs_copy_index, checked_sub. destruct (vlen s <? 1) eqn:E1; [lia|].
-    rewrite Hv, (zget_app_mid a t v) by lia. cbv zeta. fold (as_usize v).
-    destruct (vlen s - 1 <? as_usize v) eqn:E2; [reflexivity|lia]. }
-  destruct (Z.eq_dec (as_usize v) 0) as [Ei|Ei].
-  { exists s. rewrite Hs, (spec_copy_shape0 a v Ei). cbn [fst snd].
-    split; [apply (copy_index_shape0 s a v t Hv Hn1 Ei)|split; [reflexivity|exact H]]. }
-  destruct (list_split_from_end a (as_usize v) ltac:(lia)) as (p & x & m & Ha & Hm & Hp).
-  subst a.
-  assert (Hv' : vals s = p ++ x :: m ++ v :: t) by (rewrite Hv, <- app_assoc; reflexivity).
-  assert (Hn' : vlen s = zlen p + zlen m + 2) by (rewrite Hn1; zl).
-  assert (Hi' : as_usize v = zlen m + 1) by lia.
-  exists (mkVS (p ++ x :: m ++ x :: t) (vlen s)).
-  replace ((p ++ x :: m) ++ [v]) with (p ++ x :: m ++ [v]) in Hs by aeq.
-  rewrite Hs, (spec_copy_shape1 p x m v Hi'). cbn [fst snd].
-  split; [apply (copy_index_shape1 s p x m v t Hv' Hn' Hi')|]. split.
-  - apply stk_of_app with (t := t); cbn [vals vlen].
-    + rewrite <- !app_assoc. cbn [app]. rewrite <- app_assoc. reflexivity.
-    + rewrite Hn'. zl.
-  - split; cbn [vals vlen]; [|exact Hn]. rewrite <- Hl, Hv'. zl.
-Qed.
-
-Lemma move_index_refines cap : cap <= isize_max -> refines cap vs_move_index spec_move_index.
-Proof.
-  intros Hcap s H. pose proof H as [Hl Hn].
-  destruct (Z.eq_dec (vlen s) 0) as [E0|E0].
-  { assert (Hs : stk s = []) by (unfold stk; rewrite E0; reflexivity).
-    rewrite Hs. exists s. unfold vs_move_index, checked_sub. rewrite E0. cbn. auto. }
-  destruct (store_split_top cap s H ltac:(lia)) as (a & v & t & Hv & Hs & Hn1).
-  pose proof (as_usize_nonneg v) as Hi0. pose proof (zlen_nonneg a) as Ha0.
-  destruct (Z_lt_dec (zlen a) (as_usize v)) as [Ebig|Eok].
-  { exists s. rewrite Hs. unfold spec_move_index. rewrite rev_app_distr. cbn [rev app]. cbv zeta.
-    rewrite zlen_rev. destruct ((zlen a <? as_usize v) || (zlen a =? 0)) eqn:E; [|lia]. cbn [fst snd].
-    split; [|split; [reflexivity|exact H]].
-    unfold vs_move_index, checked_sub. destruct (vlen s <? 1) eqn:E1; [lia|].
-    rewrite Hv, (zget_app_mid a t v) by lia. cbv zeta. fold (as_usize v).
-    destruct (vlen s - 1 <? as_usize v) eqn:E2; [reflexivity|lia]. }
-  destruct (Z.eq_dec (zlen a) 0) as [Ea|Ea].
-  { (* a single cell holding index 0: new_top_ix underflows *)
-    exists s. rewrite Hs. unfold spec_move_index. rewrite rev_app_distr. cbn [rev app]. cbv zeta.
-    rewrite zlen_rev. destruct ((zlen a <? as_usize v) || (zlen a =? 0)) eqn:E; [|lia]. cbn [fst snd].
-    split; [|split; [reflexivity|exact H]].
-    unfold vs_move_index, checked_sub. destruct (vlen s <? 1) eqn:E1; [lia|].
-    rewrite Hv, (zget_app_mid a t v) by lia. cbv zeta. fold (as_usize v).
-    destruct (vlen s - 1 <? as_usize v) eqn:E2; [reflexivity|].
-    destruct (vlen s - 1 <? 1) eqn:E3; [reflexivity|lia]. }
-  assert (Hcs : zlen (vals s) <= isize_max) by lia.
-  destruct (Z.eq_dec (as_usize v) 0) as [Ei|Ei].
-  { destruct (exists_last (l := a)) as (a' & y & Ha).
-    { intros ->. unfold zlen in Ea. cbn in Ea. lia. }
-    subst a.
-    assert (Hv' : vals s = a' ++ y :: v :: t) by (rewrite Hv, <- app_assoc; reflexivity).
-    assert (Hn' : vlen s = zlen a' + 2) by (rewrite Hn1; zl).
-    exists (mkVS (a' ++ v :: v :: t) (vlen s - 1)).
-    replace ((a' ++ [y]) ++ [v]) with (a' ++ [y; v]) in Hs by aeq.
-    rewrite Hs, (spec_move_shape0 a' y v Ei). cbn [fst snd].
-    split; [apply (move_index_shape0 s a' y v t Hv' Hn' Ei Hcs)|]. split.
-    - apply stk_of_app with (t := v :: t); cbn [vals vlen].
-      + rewrite <- app_assoc. reflexivity.
-      + rewrite Hn'. zl.
-    - split; cbn [vals vlen]; [|lia]. rewrite <- Hl, Hv'. zl. }
-  destruct (list_split_from_end a (as_usize v) ltac:(lia)) as (p & x & m & Ha & Hm & Hp).
-  subst a.
-  assert (Hv' : vals s = p ++ x :: m ++ v :: t) by (rewrite Hv, <- app_assoc; reflexivity).
-  assert (Hn' : vlen s = zlen p + zlen m + 2) by (rewrite Hn1; zl).
-  assert (Hi' : as_usize v = zlen m + 1) by lia.
-  exists (mkVS (p ++ m ++ x :: v :: t) (vlen s - 1)).
-  replace ((p ++ x :: m) ++ [v]) with (p ++ x :: m ++ [v]) in Hs by aeq.
-  rewrite Hs, (spec_move_shape1 p x m v Hi'). cbn [fst snd].
-  split; [apply (move_index_shape1 s p x m v t Hv' Hn' Hi' Hcs)|]. split.
-  - apply stk_of_app with (t := v :: t); cbn [vals vlen].
-    + rewrite <- !app_assoc. reflexivity.
-    + rewrite Hn'. zl.
-  - split; cbn [vals vlen]; [|lia]. rewrite <- Hl, Hv'. zl.
-Qed.
 
 (* ------------------------------------------------------------------------------------------ *)
 (* the primitive operations refine their specifications (from the lemmas of Proofs.v)          *)
@@ -551,6 +259,101 @@ Proof.
   apply push_refines; assumption.
 Qed.
 
+
+(* ------------------------------------------------------------------------------------------ *)
+(* copy_index / move_index refine their specifications                                         *)
+(* ------------------------------------------------------------------------------------------ *)
+(* a live cell of the store is the cell of [stk] *)
+Lemma zget_stk cap s k : vinv cap s -> 0 <= k < vlen s -> zget (vals s) k = Some (nth (Z.to_nat k) (stk s) 0).
+Proof.
+  intros [Hl Hn] Hk. unfold zget. destruct ((k <? 0) || (zlen (vals s) <=? k)) eqn:E; [lia|].
+  unfold stk. rewrite <- (nth_error_firstn_lt (vals s) (Z.to_nat (vlen s)) (Z.to_nat k)) by lia.
+  apply nth_error_nth'. rewrite firstn_length. unfold zlen in *. lia.
+Qed.
+
+Lemma copy_index_refines cap ped : cap <= isize_max -> refines cap (vs_copy_index ped) (spec_copy_index cap ped).
+Proof.
+  intros Hcap. unfold vs_copy_index, spec_copy_index. apply refines_bind; [apply pop_refines|].
+  intros v s H. pose proof (stk_len cap s H) as Hsl. pose proof H as [Hl Hn]. rewrite Hsl.
+  destruct ((v <=? 0) || (vlen s <? v)) eqn:E.
+  - destruct ped; [exists s; cbn; auto|apply push_refines; assumption].
+  - unfold sub_usize. destruct (vlen s <? v) eqn:E1; [lia|].
+    rewrite (zget_stk cap s (vlen s - v) H) by lia.
+    replace (nth (Z.to_nat (vlen s - v)) (stk s) 0) with (nth (Z.to_nat (v - 1)) (rev (stk s)) 0).
+    + apply push_refines; assumption.
+    + rewrite rev_nth by (unfold zlen in Hsl; lia). f_equal. unfold zlen in Hsl. lia.
+Qed.
+
+(* the store  p ++ x :: m ++ t  (t: dead cells): the tail from the last live cell on *)
+Lemma skipn_last_live (p m t : list Z) x : exists y, skipn (length p + length m) (p ++ x :: m ++ t) = y :: t.
+Proof.
+  destruct (exists_last (l := x :: m)) as (m' & y & E); [discriminate|]. exists y.
+  assert (Hm : length m' = length m).
+  { apply (f_equal (@length Z)) in E. rewrite app_length in E. cbn [length] in E. lia. }
+  replace (p ++ x :: m ++ t) with ((p ++ m') ++ y :: t).
+  - apply skipn_app_len. rewrite app_length. lia.
+  - change (x :: m ++ t) with ((x :: m) ++ t). rewrite E. aeq.
+Qed.
+
+Lemma copy_within_live p x m t : exists y,
+  copy_within (p ++ x :: m ++ t) (zlen p + 1) (zlen p + zlen m + 1) (zlen p) = Some (p ++ m ++ y :: t).
+Proof.
+  destruct (skipn_last_live p m t x) as [y Hy]. exists y.
+  unfold copy_within. pose proof (zlen_nonneg p). pose proof (zlen_nonneg m). pose proof (zlen_nonneg t).
+  assert (Hl : zlen (p ++ x :: m ++ t) = zlen p + zlen m + 1 + zlen t) by zl.
+  rewrite Hl.
+  destruct ((zlen p + zlen m + 1 <? zlen p + 1) || (zlen p + zlen m + 1 + zlen t <? zlen p + zlen m + 1)
+            || (zlen p + zlen m + 1 + zlen t <? zlen p + (zlen p + zlen m + 1 - (zlen p + 1)))
+            || (zlen p + 1 <? 0) || (zlen p <? 0)) eqn:E; [lia|].
+  f_equal.
+  rewrite (firstn_app_len p) by (unfold zlen; lia). f_equal.
+  replace (p ++ x :: m ++ t) with ((p ++ [x]) ++ m ++ t) at 1 by aeq.
+  rewrite (skipn_app_len (p ++ [x])) by zl.
+  rewrite (firstn_app_len m) by zl. f_equal.
+  replace (Z.to_nat (zlen p + (zlen p + zlen m + 1 - (zlen p + 1)))) with (length p + length m)%nat by (unfold zlen; lia).
+  exact Hy.
+Qed.
+
+Lemma rev_shape (p m : list Z) x : rev (p ++ x :: m) = rev m ++ x :: rev p.
+Proof. rewrite rev_app_distr. cbn [rev]. rewrite <- app_assoc. reflexivity. Qed.
+
+Lemma move_index_refines cap ped : cap <= isize_max -> refines cap (vs_move_index ped) (spec_move_index ped).
+Proof.
+  intros Hcap. unfold vs_move_index, spec_move_index. apply refines_bind; [apply pop_refines|].
+  intros v s H. pose proof (stk_len cap s H) as Hsl. pose proof H as [Hl Hn]. rewrite Hsl.
+  destruct ((v <=? 0) || (vlen s <? v)) eqn:E.
+  - destruct ped; exists s; cbn; auto.
+  - cbv zeta. cbn [fst snd].
+    destruct (list_split_from_end (stk s) v ltac:(lia)) as (p & x & m & Hs & Hm & Hp).
+    set (t := skipn (Z.to_nat (vlen s)) (vals s)).
+    assert (Hv : vals s = p ++ x :: m ++ t).
+    { rewrite <- (firstn_skipn (Z.to_nat (vlen s)) (vals s)). fold (stk s). fold t. rewrite Hs. aeq. }
+    pose proof (zlen_nonneg p). pose proof (zlen_nonneg m). pose proof (zlen_nonneg t).
+    assert (Hn' : vlen s = zlen p + zlen m + 1) by lia.
+    exists (mkVS (p ++ m ++ x :: t) (vlen s)). split; [|split].
+    + unfold sub_usize. destruct (vlen s <? v) eqn:E1; [lia|].
+      replace (vlen s - v) with (zlen p) by lia.
+      rewrite Hv at 1. rewrite (zget_app_mid p (m ++ t) x) by reflexivity.
+      unfold add_usize, usize_max, isize_max in *.
+      destruct (18446744073709551615 <? zlen p + 1) eqn:E4; [lia|].
+      destruct (copy_within_live p x m t) as [y Hy].
+      rewrite Hv, Hn', Hy.
+      destruct (zlen p + zlen m + 1 <? 1) eqn:E5; [lia|].
+      replace (p ++ m ++ y :: t) with ((p ++ m) ++ y :: t) by aeq.
+      rewrite (zset_app_mid (p ++ m) t y x) by zl.
+      rewrite <- app_assoc. reflexivity.
+    + rewrite Hs, rev_shape.
+      replace (Z.to_nat (v - 1)) with (length (rev m)) by (rewrite rev_length; unfold zlen in *; lia).
+      replace (Z.to_nat v) with (length (rev m ++ [x])) by (rewrite app_length, rev_length; unfold zlen in *; cbn [length]; lia).
+      rewrite app_nth2 by lia. rewrite Nat.sub_diag. cbn [nth].
+      rewrite (firstn_app_len (rev m)) by reflexivity.
+      replace (rev m ++ x :: rev p) with ((rev m ++ [x]) ++ rev p) by aeq.
+      rewrite (skipn_app_len (rev m ++ [x])) by reflexivity.
+      cbn [rev]. rewrite rev_app_distr, !rev_involutive.
+      apply stk_of_app with (t := t); cbn [vals vlen]; [aeq|]. rewrite Hn'. zl.
+    + split; cbn [vals vlen]; [|exact Hn]. rewrite <- Hl, Hv. zl.
+Qed.
+
 (* ------------------------------------------------------------------------------------------ *)
 (* whole op sequences: the ValueStack is observationally the list machine                      *)
 (* ------------------------------------------------------------------------------------------ *)
@@ -577,8 +380,8 @@ Definition spec_step (cap : Z) (ped : bool) (o : vop) (l : list Z) : list Z * (Z
   | OClear => lobs unit0 (spec_clear l)
   | ODup => lobs unit0 (spec_dup cap ped l)
   | OSwap => lobs unit0 (spec_swap cap ped l)
-  | OCopyIndex => lobs unit0 (spec_copy_index l)
-  | OMoveIndex => lobs unit0 (spec_move_index l)
+  | OCopyIndex => lobs unit0 (spec_copy_index cap ped l)
+  | OMoveIndex => lobs unit0 (spec_move_index ped l)
   | ORoll => lobs unit0 (spec_roll cap ped l)
   end.
 
@@ -632,6 +435,7 @@ Proof.
 Qed.
 
 (* ------------------------------------------------------------------------------------------ *)
+(* ------------------------------------------------------------------------------------------ *)
 (* property-level statements                                                                   *)
 (* ------------------------------------------------------------------------------------------ *)
 (* every ValueStack method is the corresponding list operation *)
@@ -647,8 +451,8 @@ Lemma value_stack_refines_list_lemma : forall cap, cap <= isize_max ->
   refines cap vs_clear spec_clear /\
   (forall ped, refines cap (vs_dup ped) (spec_dup cap ped)) /\
   (forall ped, refines cap (vs_swap ped) (spec_swap cap ped)) /\
-  refines cap vs_copy_index spec_copy_index /\
-  refines cap vs_move_index spec_move_index /\
+  (forall ped, refines cap (vs_copy_index ped) (spec_copy_index cap ped)) /\
+  (forall ped, refines cap (vs_move_index ped) (spec_move_index ped)) /\
   (forall ped, refines cap (vs_roll ped) (spec_roll cap ped)).
 Proof.
   intros cap Hcap.
@@ -663,8 +467,8 @@ Proof.
   split; [apply clear_refines|].
   split; [intros; apply dup_refines; assumption|].
   split; [intros; apply swap_refines; assumption|].
-  split; [apply copy_index_refines; assumption|].
-  split; [apply move_index_refines; assumption|].
+  split; [intros; apply copy_index_refines; assumption|].
+  split; [intros; apply move_index_refines; assumption|].
   intros; apply roll_refines; assumption.
 Qed.
 
@@ -681,65 +485,79 @@ Proof.
   exists s'. change (stk (mkVS store 0)) with (@nil Z) in *. auto.
 Qed.
 
-(* closed forms of copy_index / move_index: the conventions at a glance (top-first stack v :: r) *)
-Lemma copy_index_cases_lemma : forall l,
-  zlen l <= isize_max ->
+Lemma spec_pop_snoc' ped l x : spec_pop ped (l ++ [x]) = (l, Ok x).
+Proof. unfold spec_pop. rewrite rev_app_distr. cbn [rev app]. rewrite rev_involutive. reflexivity. Qed.
+
+(* closed forms of copy_index / move_index: the conventions at a glance.  l is the whole stack (bottom first),
+   rev l = v :: r  with v the index operand and r the stack below it, top first *)
+Definition bad_index (v : Z) (r : list Z) : Prop := v <= 0 \/ zlen r < v.
+
+Lemma copy_index_cases_lemma : forall cap l, zlen l <= cap ->
   match rev l with
-  | [] => spec_copy_index l = (l, Err EUnderflow)
+  | [] => spec_copy_index cap true l = (l, Err EUnderflow) /\
+          spec_copy_index cap false l = (if 0 <? cap then ([0], Ok tt) else ([], Err EOverflow))
   | v :: r =>
-      (v < 0 -> - 2 ^ 63 <= v -> spec_copy_index l = (l, Err EUnderflow)) /\
-      (0 <= v < 2 ^ 64 -> zlen r < v -> spec_copy_index l = (l, Err EUnderflow)) /\
-      (0 <= v <= zlen r -> spec_copy_index l = (rev (nth (Z.to_nat v) (v :: r) 0 :: r), Ok tt)) /\
-      (v = 0 -> spec_copy_index l = (l, Ok tt))
+      (bad_index v r -> spec_copy_index cap true l = (rev r, Err (EInvalidStackValue v)) /\
+                        spec_copy_index cap false l = (rev (0 :: r), Ok tt)) /\
+      (1 <= v <= zlen r -> forall ped, spec_copy_index cap ped l = (rev (nth (Z.to_nat (v - 1)) r 0 :: r), Ok tt))
   end.
 Proof.
-  intros l Hl. destruct (rev l) as [|v r] eqn:Er; unfold spec_copy_index; rewrite Er; [reflexivity|].
-  assert (Hlen : zlen l = zlen r + 1).
-  { rewrite <- (zlen_rev l), Er. unfold zlen. cbn [length]. lia. }
-  pose proof (zlen_nonneg r) as Hr0. unfold isize_max in Hl. cbv zeta. unfold as_usize, wrap_u.
-  change (2 ^ 64) with 18446744073709551616. change (2 ^ 63) with 9223372036854775808.
-  split; [|split; [|split]].
-  - intros Hn Hlo. replace (v mod 18446744073709551616) with (v + 18446744073709551616)
-      by (apply (Z.mod_unique v 18446744073709551616 (-1)); lia).
-    destruct (zlen r <? v + 18446744073709551616) eqn:E; [reflexivity|lia].
-  - intros Hv Hbig. rewrite Z.mod_small by lia. destruct (zlen r <? v) eqn:E; [reflexivity|lia].
-  - intros Hv. rewrite Z.mod_small by lia. destruct (zlen r <? v) eqn:E; [lia|reflexivity].
-  - intros ->. cbn [Z.modulo Z.div_eucl]. destruct (zlen r <? 0) eqn:E; [lia|].
-    cbn [Z.to_nat nth]. rewrite <- Er, rev_involutive. reflexivity.
+  intros cap l Hl. destruct (rev l) as [|v r] eqn:Er.
+  - assert (l = []) by (rewrite <- (rev_involutive l), Er; reflexivity). subst l.
+    unfold spec_copy_index, lbind, spec_pop, spec_push. cbn [rev]. change (zlen (@nil Z)) with 0.
+    cbn [Z.leb Z.compare orb app]. split; reflexivity.
+  - assert (El : l = rev r ++ [v]) by (rewrite <- (rev_involutive l), Er; reflexivity).
+    assert (Hlen : zlen (rev r) = zlen r) by apply zlen_rev.
+    assert (Hcap : zlen (rev r) < cap) by (rewrite El in Hl; rewrite zlen_app in Hl; unfold zlen in *; cbn [length] in *; lia).
+    unfold spec_copy_index, lbind. rewrite El, !spec_pop_snoc'. rewrite Hlen. split.
+    + intros Hb. unfold bad_index in Hb. destruct ((v <=? 0) || (zlen r <? v)) eqn:E; [|lia].
+      split; [reflexivity|]. unfold spec_push. destruct (zlen (rev r) <? cap) eqn:E2; [reflexivity|lia].
+    + intros Hv ped. rewrite ?spec_pop_snoc', ?Hlen. destruct ((v <=? 0) || (zlen r <? v)) eqn:E; [lia|].
+      unfold spec_push. destruct (zlen (rev r) <? cap) eqn:E2; [|lia]. rewrite rev_involutive. reflexivity.
 Qed.
 
 Lemma move_index_cases_lemma : forall l,
-  zlen l <= isize_max ->
   match rev l with
-  | [] => spec_move_index l = (l, Err EUnderflow)
+  | [] => spec_move_index true l = (l, Err EUnderflow) /\ spec_move_index false l = (l, Ok tt)
   | v :: r =>
-      (v < 0 -> - 2 ^ 63 <= v -> spec_move_index l = (l, Err EUnderflow)) /\
-      (0 <= v < 2 ^ 64 -> zlen r < v -> spec_move_index l = (l, Err EUnderflow)) /\
-      (r = [] -> spec_move_index l = (l, Err EUnderflow)) /\
-      (v = 0 -> forall y r', r = y :: r' -> spec_move_index l = (rev (0 :: r'), Ok tt)) /\
-      (1 <= v <= zlen r ->
-         spec_move_index l =
+      (bad_index v r -> spec_move_index true l = (rev r, Err (EInvalidStackValue v)) /\
+                        spec_move_index false l = (rev r, Ok tt)) /\
+      (1 <= v <= zlen r -> forall ped,
+         spec_move_index ped l =
            (rev (nth (Z.to_nat (v - 1)) r 0 :: firstn (Z.to_nat (v - 1)) r ++ skipn (Z.to_nat v) r), Ok tt))
   end.
 Proof.
-  intros l Hl. destruct (rev l) as [|v r] eqn:Er; unfold spec_move_index; rewrite Er; [reflexivity|].
-  assert (Hlen : zlen l = zlen r + 1).
-  { rewrite <- (zlen_rev l), Er. unfold zlen. cbn [length]. lia. }
-  pose proof (zlen_nonneg r) as Hr0. unfold isize_max in Hl. cbv zeta. unfold as_usize, wrap_u.
-  change (2 ^ 64) with 18446744073709551616. change (2 ^ 63) with 9223372036854775808.
-  split; [|split; [|split; [|split]]].
-  - intros Hn Hlo. replace (v mod 18446744073709551616) with (v + 18446744073709551616)
-      by (apply (Z.mod_unique v 18446744073709551616 (-1)); lia).
-    destruct ((zlen r <? v + 18446744073709551616) || (zlen r =? 0)) eqn:E; [reflexivity|lia].
-  - intros Hv Hbig. rewrite Z.mod_small by lia. destruct ((zlen r <? v) || (zlen r =? 0)) eqn:E; [reflexivity|lia].
-  - intros ->. change (zlen (@nil Z)) with 0. rewrite Z.eqb_refl, orb_true_r. reflexivity.
-  - intros -> y r' ->. cbn [Z.modulo Z.div_eucl].
-    destruct ((zlen (y :: r') <? 0) || (zlen (y :: r') =? 0)) eqn:E.
-    { unfold zlen in *. cbn [length] in *. lia. }
-    reflexivity.
-  - intros Hv. rewrite Z.mod_small by lia.
-    destruct ((zlen r <? v) || (zlen r =? 0)) eqn:E; [lia|].
-    destruct (v =? 0) eqn:E0; [lia|]. reflexivity.
+  intros l. destruct (rev l) as [|v r] eqn:Er.
+  - assert (l = []) by (rewrite <- (rev_involutive l), Er; reflexivity). subst l.
+    unfold spec_move_index, lbind, spec_pop. cbn [rev]. change (zlen (@nil Z)) with 0.
+    cbn [Z.leb Z.compare orb]. split; reflexivity.
+  - assert (El : l = rev r ++ [v]) by (rewrite <- (rev_involutive l), Er; reflexivity).
+    assert (Hlen : zlen (rev r) = zlen r) by apply zlen_rev.
+    unfold spec_move_index, lbind. rewrite El, !spec_pop_snoc'. rewrite Hlen. split.
+    + intros Hb. unfold bad_index in Hb. destruct ((v <=? 0) || (zlen r <? v)) eqn:E; [|lia]. split; reflexivity.
+    + intros Hv ped. rewrite ?spec_pop_snoc', ?Hlen. destruct ((v <=? 0) || (zlen r <? v)) eqn:E; [lia|]. cbv zeta. rewrite rev_involutive. reflexivity.
+Qed.
+
+(* the pedantic flag matters exactly when the stack is empty or the index is outside 1..=depth *)
+Definition good_index_on_top (l : list Z) : Prop :=
+  match rev l with v :: r => 1 <= v <= zlen r | [] => False end.
+
+Lemma index_ops_pedantic_only_on_bad_index_lemma : forall cap l, zlen l <= cap ->
+  (spec_copy_index cap true l = spec_copy_index cap false l <-> good_index_on_top l) /\
+  (spec_move_index true l = spec_move_index false l <-> good_index_on_top l).
+Proof.
+  intros cap l Hl. pose proof (copy_index_cases_lemma cap l Hl) as C. pose proof (move_index_cases_lemma l) as Mv.
+  unfold good_index_on_top. destruct (rev l) as [|v r].
+  - destruct C as [C1 C2], Mv as [M1 M2]. rewrite C1, C2, M1, M2. split; split; try contradiction.
+    + destruct (0 <? cap); discriminate.
+    + discriminate.
+  - destruct C as [Cb Cg], Mv as [Mb Mg].
+    destruct (Z_le_dec 1 v) as [H1|H1]; [destruct (Z_le_dec v (zlen r)) as [H2|H2]|].
+    + split; (split; [intros _; lia|intros _]); [rewrite !Cg by lia|rewrite !Mg by lia]; reflexivity.
+    + assert (Hb : bad_index v r) by (unfold bad_index; lia).
+      destruct (Cb Hb) as [-> ->], (Mb Hb) as [-> ->]. split; (split; [discriminate|lia]).
+    + assert (Hb : bad_index v r) by (unfold bad_index; lia).
+      destruct (Cb Hb) as [-> ->], (Mb Hb) as [-> ->]. split; (split; [discriminate|lia]).
 Qed.
 
 (* closed forms of the composite operations on stacks that are deep enough (bottom-first lists) *)
@@ -792,7 +610,3 @@ Proof.
     change (zlen [a]) with 1. destruct (1 <? cap) eqn:E2; [|lia]. reflexivity.
 Qed.
 
-(* neither operation looks at is_pedantic *)
-Lemma index_ops_ignore_pedantic_lemma : forall ped ped' s,
-  vs_step ped OCopyIndex s = vs_step ped' OCopyIndex s /\ vs_step ped OMoveIndex s = vs_step ped' OMoveIndex s.
-Proof. intros. split; reflexivity. Qed.
